@@ -6,6 +6,6 @@ CONSTANTS NTx = 2 Kind <- KindS Sender <- SenderS Nonce <- NonceS NAccs = 1 Accs
 INIT Init
 NEXT Next
 VIEW view
-INVARIANTS TypeOK ExactlyOnceFIFO DbConsistent DbIsLog DurablePrefix NothingDropped CloseFlushesAll NoLostWakeup ExecBatchBound
+INVARIANTS TypeOK ExactlyOnceFIFO DbConsistent DbIsLog DurablePrefix NothingDropped CloseFlushesAll NoLostWakeup TokenAfterAppend ExecBatchBound
 PROPERTIES RejectHasNoEffect CapacityOnPush ReloadIsTheLog
 CHECK_DEADLOCK FALSE
